@@ -1,24 +1,23 @@
 /-
-  Cobweb.Proofs.PendingD — the pending invariant at the level of *entries*: as long as no two commands that wait for the
-  same tracker target the same system (`Unamb`), every tracker's prepared list is, entry by entry, a permutation of the
-  metadata the waiting commands prepared, and every `start` claims exactly the metadata its own command prepared.
-  (Without `Unamb` this is false of the code: finding F1.)
+  Cobweb.Proofs.PendingD — the pending invariant at the level of *entries*: every tracker's prepared list is, entry by
+  entry, a permutation of the metadata the waiting commands prepared, and every `start` claims exactly the metadata its own
+  command prepared (the ticket of the repaired code: finding F1, fixed). The system-level invariant `Pend` follows.
 -/
 import Cobweb.Proofs.Pending
 
 namespace Cobweb
 
 /-- What a tracker stores for one prepared entry, uniformly: the data entity or source, and the reaction type. -/
-abbrev Key := Nat × Option RType
+abbrev Key := Nat × Option RType × Option Handle
 
 /-- The entry a command of (ghost) kind `k` prepared in tracker `T`. -/
 def keyOf : TrkId → Kind → Option Key
-  | .sys, .sysEv d => some (d, none)
-  | .evt, .bcEv d => some (d, none)
-  | .evt, .entEv _ d => some (d, none)
-  | .ent, .entReact src rt => some (src, some rt)
-  | .ent, .entEv target _ => some (target, some evUnit)
-  | .dsp, .dspReact src => some (src, none)
+  | .sys, .sysEv d => some (d, none, none)
+  | .evt, .bcEv d => some (d, none, none)
+  | .evt, .entEv _ d => some (d, none, none)
+  | .ent, .entReact src rt => some (src, some rt, none)
+  | .ent, .entEv target _ => some (target, some evUnit, none)
+  | .dsp, .dspReact src h => some (src, none, some h)
   | _, _ => none
 
 theorem keyOf_isSome (T : TrkId) (k : Kind) : (keyOf T k).isSome = uses T k := by cases T <;> cases k <;> rfl
@@ -29,9 +28,9 @@ theorem keyOf_none {T : TrkId} {k : Kind} (h : keyOf T k = none) : uses T k = fa
 theorem keyOf_some {T : TrkId} {k : Kind} {key : Key} (h : keyOf T k = some key) : uses T k = true := by
   rw [← keyOf_isSome, h]; rfl
 
-def gData (p : Nat × Nat) : Nat × Key := (p.1, p.2, none)
-def gEnt (p : Nat × Nat × RType) : Nat × Key := (p.1, p.2.1, some p.2.2)
-def gDsp (p : Nat × Nat × Handle) : Nat × Key := (p.1, p.2.1, none)
+def gData (p : Nat × Nat) : Nat × Key := (p.1, p.2, none, none)
+def gEnt (p : Nat × Nat × RType) : Nat × Key := (p.1, p.2.1, some p.2.2, none)
+def gDsp (p : Nat × Nat × Handle) : Nat × Key := (p.1, p.2.1, none, some p.2.2)
 
 /-- Entries of the prepared list of one tracker. -/
 def prepD : TrkId → St → List (Nat × Key)
@@ -42,10 +41,10 @@ def prepD : TrkId → St → List (Nat × Key)
 
 /-- What the claimed ("current") entry of a tracker is. -/
 def curKey : TrkId → St → Key
-  | .sys, s => (s.trkSys.cur, none)
-  | .evt, s => (s.trkEvt.cur, none)
-  | .ent, s => (s.trkEnt.curSrc, some s.trkEnt.curRt)
-  | .dsp, s => (s.trkDsp.curSrc, none)
+  | .sys, s => (s.trkSys.cur, none, none)
+  | .evt, s => (s.trkEvt.cur, none, none)
+  | .ent, s => (s.trkEnt.curSrc, some s.trkEnt.curRt, none)
+  | .dsp, s => (s.trkDsp.curSrc, none, s.trkDsp.curHandle)
 
 def reactingOf : TrkId → St → Bool
   | .sys, s => s.trkSys.reacting
@@ -98,105 +97,68 @@ theorem claimedOwn_iff (s : St) (k : Kind) : claimedOwn s k = true ↔ ∀ T key
 /-- The entry-level invariant and the unambiguity condition. -/
 def PendD (s : St) : Prop := ∀ T : TrkId, (prepD T s).Perm (pendD T (allPending s))
 
-def Unamb (s : St) : Prop := ∀ T : TrkId, (pend (uses T) (allPending s)).Nodup
-
 theorem pend_of_pendD {s : St} (h : PendD s) : Pend s := by
   intro T; have := (h T).map (·.1); rwa [prepD_fst, pendD_fst] at this
-
-theorem eq_of_nodup_fst {α β : Type} {l : List (α × β)} (hn : (l.map (·.1)).Nodup) {a b : α × β} (ha : a ∈ l) (hb : b ∈ l)
-    (hab : a.1 = b.1) : a = b := by
-  induction l with
-  | nil => cases ha
-  | cons x l ih =>
-    simp only [List.map_cons, List.nodup_cons] at hn
-    rcases List.mem_cons.mp ha with rfl | ha' <;> rcases List.mem_cons.mp hb with rfl | hb'
-    · rfl
-    · exact absurd (List.mem_map.mpr ⟨b, hb', hab.symm⟩) hn.1
-    · exact absurd (List.mem_map.mpr ⟨a, ha', hab⟩) hn.1
-    · exact ih hn.2 ha' hb'
 
 end Cobweb
 
 namespace Cobweb
 
-/-- `start` on a list in which every entry for `sys` is `(sys, key)`: the claimed entry is `(sys, key)` and exactly one
-    copy of it leaves the list. -/
-theorem first_match_permD {β : Type} (g : Nat × β → Nat × Key) (hg : ∀ x, (g x).1 = x.1) (l : List (Nat × β)) (sys : Nat)
-    (key : Key) (hmem : (sys, key) ∈ l.map g) (huniq : ∀ y ∈ l.map g, y.1 = sys → y = (sys, key)) :
-    ∃ j x, findIdx' (fun p => p.1 == sys) l 0 = some j ∧ l[j]? = some x ∧ g x = (sys, key) ∧
-      ((swapRemove l j).map g).Perm ((l.map g).erase (sys, key)) := by
-  cases hf : findIdx' (fun p => p.1 == sys) l 0 with
-  | none =>
-    exfalso
-    have hnone := findIdx'_none _ _ _ hf
+theorem map_erase_inj {α β : Type} [BEq α] [LawfulBEq α] [BEq β] [LawfulBEq β] (g : α → β) (hg : ∀ a b, g a = g b → a = b)
+    (l : List α) (a : α) : (l.erase a).map g = (l.map g).erase (g a) := by
+  induction l with
+  | nil => rfl
+  | cons x l ih =>
+    by_cases hx : x = a
+    · subst hx; simp
+    · have hgx : g x ≠ g a := fun h => hx (hg _ _ h)
+      have e1 : (x == a) = false := by simpa using hx
+      have e2 : (g x == g a) = false := by simpa using hgx
+      rw [List.erase_cons, e1, List.map_cons, List.erase_cons, e2]
+      simp [ih]
+
+theorem gData_inj : ∀ a b, gData a = gData b → a = b := by
+  intro ⟨a1, a2⟩ ⟨b1, b2⟩ h; simp [gData] at h; simp [h]
+theorem gEnt_inj : ∀ a b, gEnt a = gEnt b → a = b := by
+  intro ⟨a1, a2, a3⟩ ⟨b1, b2, b3⟩ h; simp [gEnt] at h; simp [h]
+theorem gDsp_inj : ∀ a b, gDsp a = gDsp b → a = b := by
+  intro ⟨a1, a2, a3⟩ ⟨b1, b2, b3⟩ h; simp [gDsp] at h; simp [h]
+
+/-- `start` claims the command's own entry: exactly one copy of it leaves the list. -/
+theorem TrkData.startD (t : TrkData) (sys d : Nat) (hmem : (sys, d, none, none) ∈ t.prepared.map gData) :
+    ((t.start sys d).prepared.map gData).Perm ((t.prepared.map gData).erase (sys, d, none, none)) ∧
+      ((t.start sys d).cur, (none : Option RType), (none : Option Handle)) = (d, none, none) ∧ (t.start sys d).reacting = true := by
+  have hm : (sys, d) ∈ t.prepared := by
     obtain ⟨x, hx, hxs⟩ := List.mem_map.mp hmem
-    have := hnone x hx
-    have hx1 : x.1 = sys := by have := hg x; rw [hxs] at this; exact this.symm
-    simp [hx1] at this
-  | some j =>
-    obtain ⟨pre, x, post, hl, hlen, hpx⟩ := split_at_first _ _ _ hf
-    have hxs : x.1 = sys := by simpa using hpx
-    have hfirst : ∀ y ∈ pre, y.1 ≠ sys := by
-      obtain ⟨_, _, _, hfi⟩ := findIdx'_spec _ _ _ _ hf
-      intro y hy
-      obtain ⟨k, hk, hyk⟩ := List.getElem_of_mem hy
-      have hkj : k < j - 0 := by omega
-      have := hfi k hkj y (by rw [hl, List.getElem?_append_left hk, List.getElem?_eq_getElem hk, hyk])
-      simpa using this
-    have hget : l[j]? = some x := by rw [hl, ← hlen]; simp
-    have hgx : g x = (sys, key) := huniq (g x) (List.mem_map.mpr ⟨x, by rw [hl]; simp, rfl⟩) (by rw [hg, hxs])
-    refine ⟨j, x, rfl, hget, hgx, ?_⟩
-    rw [hl, ← hlen]
-    have h1 := (swapRemove_perm pre x post).map g
-    refine h1.trans ?_
-    have : (List.map g (pre ++ x :: post)).erase (sys, key) = List.map g (pre ++ post) := by
-      simp only [List.map_append, List.map_cons]
-      rw [List.erase_append_right]
-      · simp [hgx]
-      · intro hin
-        obtain ⟨y, hy, hys⟩ := List.mem_map.mp hin
-        have := hg y; rw [hys] at this
-        exact hfirst y hy this.symm
-    rw [this]
+    have : x = (sys, d) := gData_inj x (sys, d) hxs
+    rw [← this]; exact hx
+  obtain ⟨h1, h2, h3⟩ := TrkData.start_claims_own t sys d hm
+  refine ⟨?_, by rw [h2], h1⟩
+  rw [h3]; exact List.Perm.of_eq (map_erase_inj gData gData_inj t.prepared (sys, d))
 
-theorem TrkData.startD (t : TrkData) (sys : Nat) (key : Key) (hmem : (sys, key) ∈ t.prepared.map gData)
-    (huniq : ∀ y ∈ t.prepared.map gData, y.1 = sys → y = (sys, key)) :
-    ((t.start sys).prepared.map gData).Perm ((t.prepared.map gData).erase (sys, key)) ∧ ((t.start sys).cur, none) = key ∧
-      (t.start sys).reacting = true := by
-  obtain ⟨j, x, hf, hget, hgx, hp⟩ := first_match_permD gData (fun _ => rfl) t.prepared sys key hmem huniq
-  obtain ⟨a, b⟩ := x
-  have hs : t.start sys = { reacting := true, cur := b, prepared := swapRemove t.prepared j } := by
-    simp [TrkData.start, hf, hget]
-  rw [hs]
-  refine ⟨hp, ?_, rfl⟩
-  simp only [gData, Prod.mk.injEq] at hgx
-  exact hgx.2
+theorem TrkEnt.startD (t : TrkEnt) (sys src : Nat) (rt : RType) (hmem : (sys, src, some rt, none) ∈ t.prepared.map gEnt) :
+    ((t.start sys src rt).prepared.map gEnt).Perm ((t.prepared.map gEnt).erase (sys, src, some rt, none)) ∧
+      ((t.start sys src rt).curSrc, some (t.start sys src rt).curRt, (none : Option Handle)) = (src, some rt, none) ∧
+      (t.start sys src rt).reacting = true := by
+  have hm : (sys, src, rt) ∈ t.prepared := by
+    obtain ⟨x, hx, hxs⟩ := List.mem_map.mp hmem
+    have : x = (sys, src, rt) := gEnt_inj x (sys, src, rt) hxs
+    rw [← this]; exact hx
+  obtain ⟨h1, _, h3, h4, h5⟩ := TrkEnt.start_claims_own t sys src rt hm
+  refine ⟨?_, by rw [h3, h4], h1⟩
+  rw [h5]; exact List.Perm.of_eq (map_erase_inj gEnt gEnt_inj t.prepared (sys, src, rt))
 
-theorem TrkEnt.startD (t : TrkEnt) (sys : Nat) (key : Key) (hmem : (sys, key) ∈ t.prepared.map gEnt)
-    (huniq : ∀ y ∈ t.prepared.map gEnt, y.1 = sys → y = (sys, key)) :
-    ((t.start sys).prepared.map gEnt).Perm ((t.prepared.map gEnt).erase (sys, key)) ∧
-      ((t.start sys).curSrc, some (t.start sys).curRt) = key ∧ (t.start sys).reacting = true := by
-  obtain ⟨j, x, hf, hget, hgx, hp⟩ := first_match_permD gEnt (fun _ => rfl) t.prepared sys key hmem huniq
-  obtain ⟨a, b, c⟩ := x
-  have hs : t.start sys = { reacting := true, curSys := a, curSrc := b, curRt := c, prepared := swapRemove t.prepared j } := by
-    simp [TrkEnt.start, hf, hget]
-  rw [hs]
-  refine ⟨hp, ?_, rfl⟩
-  simp only [gEnt, Prod.mk.injEq] at hgx
-  exact hgx.2
-
-theorem TrkDsp.startD (t : TrkDsp) (sys : Nat) (key : Key) (hmem : (sys, key) ∈ t.prepared.map gDsp)
-    (huniq : ∀ y ∈ t.prepared.map gDsp, y.1 = sys → y = (sys, key)) :
-    (((t.start sys).1).prepared.map gDsp).Perm ((t.prepared.map gDsp).erase (sys, key)) ∧
-      (((t.start sys).1).curSrc, none) = key ∧ ((t.start sys).1).reacting = true := by
-  obtain ⟨j, x, hf, hget, hgx, hp⟩ := first_match_permD gDsp (fun _ => rfl) t.prepared sys key hmem huniq
-  obtain ⟨a, b, c⟩ := x
-  have hs : (t.start sys).1 = { reacting := true, curSrc := b, curHandle := some c, prepared := swapRemove t.prepared j } := by
-    simp [TrkDsp.start, hf, hget]
-  rw [hs]
-  refine ⟨hp, ?_, rfl⟩
-  simp only [gDsp, Prod.mk.injEq] at hgx
-  exact hgx.2
+theorem TrkDsp.startD (t : TrkDsp) (sys src : Nat) (hd : Handle) (hmem : (sys, src, none, some hd) ∈ t.prepared.map gDsp) :
+    (((t.start sys src hd).1).prepared.map gDsp).Perm ((t.prepared.map gDsp).erase (sys, src, none, some hd)) ∧
+      (((t.start sys src hd).1).curSrc, (none : Option RType), ((t.start sys src hd).1).curHandle) = (src, none, some hd) ∧
+      ((t.start sys src hd).1).reacting = true := by
+  have hm : (sys, src, hd) ∈ t.prepared := by
+    obtain ⟨x, hx, hxs⟩ := List.mem_map.mp hmem
+    have : x = (sys, src, hd) := gDsp_inj x (sys, src, hd) hxs
+    rw [← this]; exact hx
+  obtain ⟨h1, h2, h3, h4, _⟩ := TrkDsp.start_claims_own t sys src hd hm
+  refine ⟨?_, by rw [h2, h3], h1⟩
+  rw [h4]; exact List.Perm.of_eq (map_erase_inj gDsp gDsp_inj t.prepared (sys, src, hd))
 
 theorem prepD_setupK_unused (T : TrkId) (s : St) (k : Kind) (sys : Nat) (h : keyOf T k = none) :
     prepD T (setupK s k sys) = prepD T s := by
@@ -208,18 +170,18 @@ theorem reacting_setupK_unused (T : TrkId) (s : St) (k : Kind) (sys : Nat) (h : 
   cases T <;> cases k <;> simp [keyOf] at h <;> simp only [reactingOf, setupK] <;>
     first | rfl | (split <;> simp)
 
-/-- `setup` on a tracker the command uses, when the command's entry is the only one for its system. -/
+/-- `setup` on a tracker the command uses: it claims the command's own entry. -/
 theorem prepD_setupK_used (T : TrkId) (s : St) (k : Kind) (sys : Nat) (key : Key) (h : keyOf T k = some key)
-    (hmem : (sys, key) ∈ prepD T s) (huniq : ∀ y ∈ prepD T s, y.1 = sys → y = (sys, key)) :
+    (hmem : (sys, key) ∈ prepD T s) :
     (prepD T (setupK s k sys)).Perm ((prepD T s).erase (sys, key)) ∧ curKey T (setupK s k sys) = key ∧
       reactingOf T (setupK s k sys) = true := by
-  cases T <;> cases k <;> simp [keyOf] at h <;> simp only [prepD, setupK, curKey, reactingOf] at hmem huniq ⊢
-  · exact TrkData.startD s.trkSys sys key hmem huniq
-  · exact TrkData.startD s.trkEvt sys key hmem huniq
-  · exact TrkData.startD s.trkEvt sys key hmem huniq
-  · exact TrkEnt.startD s.trkEnt sys key hmem huniq
-  · exact TrkEnt.startD s.trkEnt sys key hmem huniq
-  · have := TrkDsp.startD s.trkDsp sys key hmem huniq
+  cases T <;> cases k <;> simp [keyOf] at h <;> subst h <;> simp only [prepD, setupK, curKey, reactingOf] at hmem ⊢
+  · exact TrkData.startD s.trkSys sys _ hmem
+  · exact TrkData.startD s.trkEvt sys _ hmem
+  · exact TrkData.startD s.trkEvt sys _ hmem
+  · exact TrkEnt.startD s.trkEnt sys _ _ hmem
+  · exact TrkEnt.startD s.trkEnt sys _ _ hmem
+  · have := TrkDsp.startD s.trkDsp sys _ _ hmem
     split <;> simpa using this
 
 end Cobweb
@@ -287,17 +249,9 @@ theorem applyCmd_prepD_none (T : TrkId) (s : St) (c : Cmd) (h : cmdPrepares c = 
 def PendDF (s : St) (f : Frame) : Prop :=
   ∀ T : TrkId, (prepD T s).Perm (pendD T (s.buffered ++ (framePending f ++ stackPending s.stack)))
 
-def UnambF (s : St) (f : Frame) : Prop :=
-  ∀ T : TrkId, (pend (uses T) (s.buffered ++ (framePending f ++ stackPending s.stack))).Nodup
-
 theorem pendDF_of_pendD {s : St} {f : Frame} {rest : List Frame} (h : PendD s) (hs : s.stack = f :: rest) :
     PendDF ({ s with stack := rest } : St) f := by
   intro T; rw [prepD_pop]; have := h T
-  simpa [allPending, hs, stackPending_cons] using this
-
-theorem unambF_of_unamb {s : St} {f : Frame} {rest : List Frame} (h : Unamb s) (hs : s.stack = f :: rest) :
-    UnambF ({ s with stack := rest } : St) f := by
-  intro T; have := h T
   simpa [allPending, hs, stackPending_cons] using this
 
 theorem pendD_gen {s s' : St} {f : Frame} {fs : List Frame} (h : PendDF s f) (hf : ∀ T, pend (uses T) (framePending f) = [])
@@ -319,10 +273,9 @@ theorem pendD_mv {s s' : St} {f : Frame} {B : List (Nat × Kind)} {S : List Fram
 
 macro "trkD" : tactic => `(tactic| (intro T; apply prepD_of_trk <;> simp [runFrame, St.push, St.emit]))
 
-/-- `setup` consumes exactly the command's own entry, and claims it, when the command is the only one waiting for its
-    system on the tracker. -/
+/-- `setup` consumes exactly the command's own entry, and claims it. -/
 theorem pendD_setup {s : St} {sys : Nat} {k : Kind} {A B : List (Nat × Kind)} (T : TrkId)
-    (h0 : (prepD T s).Perm (pendD T (A ++ (sys, k) :: B))) (hn : (pend (uses T) (A ++ (sys, k) :: B)).Nodup) :
+    (h0 : (prepD T s).Perm (pendD T (A ++ (sys, k) :: B))) :
     (prepD T (setupK s k sys)).Perm (pendD T (A ++ B)) ∧
       ∀ key, keyOf T k = some key → curKey T (setupK s k sys) = key ∧ reactingOf T (setupK s k sys) = true := by
   rw [pendD_append, pendD_cons] at h0
@@ -338,15 +291,7 @@ theorem pendD_setup {s : St} {sys : Nat} {k : Kind} {A B : List (Nat × Kind)} (
     have hmid : (prepD T s).Perm ((sys, key) :: (pendD T A ++ pendD T B)) :=
       h0.trans (by simpa using (List.perm_middle (a := (sys, key)) (l₁ := pendD T A) (l₂ := pendD T B)))
     have hmem : (sys, key) ∈ prepD T s := hmid.mem_iff.mpr List.mem_cons_self
-    have hall : ∀ y ∈ prepD T s, y ∈ pendD T (A ++ (sys, k) :: B) := by
-      intro y hy
-      rw [pendD_append, pendD_cons, hone]
-      exact h0.mem_iff.mp hy
-    have hmem' : (sys, key) ∈ pendD T (A ++ (sys, k) :: B) := hall _ hmem
-    have huniq : ∀ y ∈ prepD T s, y.1 = sys → y = (sys, key) := by
-      intro y hy hys
-      exact eq_of_nodup_fst (by rw [pendD_fst]; exact hn) (hall y hy) hmem' hys
-    obtain ⟨hp, hc⟩ := prepD_setupK_used T s k sys key hk hmem huniq
+    obtain ⟨hp, hc⟩ := prepD_setupK_used T s k sys key hk hmem
     refine ⟨hp.trans ?_, fun key' h' => by cases h'; exact hc⟩
     have := hmid.erase (sys, key)
     simpa using this
@@ -392,7 +337,7 @@ theorem pendD_batch (s : St) (c : Cmd) (cs : List Cmd) (h : PendDF s (.batch (c 
       permc
 
 /-- **The pending invariant is preserved by every frame.** -/
-theorem pendDF_runFrame (p : Prog) (hh : Hist) {s : St} {f : Frame} (h : PendDF s f) (hu : UnambF s f) :
+theorem pendDF_runFrame (p : Prog) (hh : Hist) {s : St} {f : Frame} (h : PendDF s f) :
     PendD (runFrame p hh s f) := by
   cases f with
   | batch cs =>
@@ -437,8 +382,6 @@ theorem pendDF_runFrame (p : Prog) (hh : Hist) {s : St} {f : Frame} (h : PendDF 
   | runnerLookup sys k idx =>
     have hmove : ∀ T, (prepD T s).Perm (pendD T (s.buffered ++ (sys, k) :: stackPending s.stack)) := by
       intro T; simpa [framePending] using h T
-    have hnod : ∀ T, (pend (uses T) (s.buffered ++ (sys, k) :: stackPending s.stack)).Nodup := by
-      intro T; simpa [framePending] using hu T
     simp only [runFrame, doRunnerLookup]
     have habort : ∀ (ev : Ev), PendD ((s.emit ev).push (abortFrames sys k)) := by
       intro ev
@@ -463,7 +406,7 @@ theorem pendDF_runFrame (p : Prog) (hh : Hist) {s : St} {f : Frame} (h : PendDF 
           rw [hp T]
           simp only [allPending, hb, hst, stackPending_append, pendD_append, noPendD hnp T, List.nil_append]
           rw [← pendD_append]
-          refine (pendD_setup T ?_ (hnod T)).1
+          refine (pendD_setup T ?_).1
           rw [hs1 T]; exact hmove T
         split
         · exact consume _ [.afterBody sys idx] (fun T => by rw [prepD_push, prepD_emit]) (by simp [St.push, St.emit]) (by simp [St.push, St.emit])
@@ -538,9 +481,7 @@ theorem pendDF_runFrame (p : Prog) (hh : Hist) {s : St} {f : Frame} (h : PendDF 
     have e1 : (cleanupK (setupK s k sys) k).buffered = s.buffered := by simp
     have e2 : (cleanupK (setupK s k sys) k).stack = s.stack := by simp
     simp only [allPending, e1, e2]
-    have hnod : (pend (uses T) (s.buffered ++ (sys, k) :: stackPending s.stack)).Nodup := by
-      simpa [framePending] using hu T
-    exact (pendD_setup T hmove hnod).1
+    exact (pendD_setup T hmove).1
   | gc =>
     simp only [runFrame, doGc]
     split
@@ -564,9 +505,9 @@ end Cobweb
 
 namespace Cobweb
 
-theorem pendD_runFrame (p : Prog) (hh : Hist) {s : St} {f : Frame} {rest : List Frame} (h : PendD s) (hu : Unamb s)
+theorem pendD_runFrame (p : Prog) (hh : Hist) {s : St} {f : Frame} {rest : List Frame} (h : PendD s)
     (hs : s.stack = f :: rest) : PendD (runFrame p hh { s with stack := rest } f) :=
-  pendDF_runFrame p hh (pendDF_of_pendD h hs) (unambF_of_unamb hu hs)
+  pendDF_runFrame p hh (pendDF_of_pendD h hs)
 
 theorem pendD_same {s s' : St} {fs : List Frame} (h : PendD s) (hp : ∀ T, prepD T s' = prepD T s) (hb : s'.buffered = s.buffered)
     (hst : s'.stack = fs ++ s.stack) (hfs : NoPend fs) : PendD s' := by
@@ -630,7 +571,7 @@ theorem pendD_startTop {s : St} (h : PendD s) (t : Nat) (op : TopOp) : PendD (st
     · exact he
   case sigThreads a n => exact pendD_same he (by trkD0) rfl (fs := [.gc]) rfl (noPend_of_empty rfl)
 
-theorem pendD_tick (p : Prog) (hh : Hist) {s s' : St} (h : PendD s) (hu : Unamb s) (ht : tick p hh s = some s') : PendD s' := by
+theorem pendD_tick (p : Prog) (hh : Hist) {s s' : St} (h : PendD s) (ht : tick p hh s = some s') : PendD s' := by
   unfold tick at ht
   split at ht
   · rename_i s'' hs
@@ -641,7 +582,7 @@ theorem pendD_tick (p : Prog) (hh : Hist) {s s' : St} (h : PendD s) (hu : Unamb 
     | cons f rest =>
       rw [hst] at hs
       simp only [Option.some.injEq] at hs; subst hs
-      exact pendD_runFrame p hh h hu hst
+      exact pendD_runFrame p hh h hst
   · split at ht
     · rename_i op _
       simp only [Option.some.injEq] at ht; subst ht
@@ -652,22 +593,23 @@ theorem pendD_tick (p : Prog) (hh : Hist) {s s' : St} (h : PendD s) (hu : Unamb 
 
 theorem pendD_default : PendD ({} : St) := by intro T; cases T <;> exact List.Perm.refl _
 
-theorem unamb_default : Unamb ({} : St) := by intro T; exact List.nodup_nil
-
-/-- **Along every execution on which no two commands wait for the same tracker with the same target system, each
-    tracker's prepared list is, entry by entry, a permutation of what the waiting commands prepared.** -/
-theorem pendD_reach (p : Prog) (hh : Hist) {s0 s : St} (h0 : PendD s0) (hU : ∀ s', Reach p hh s0 s' → Unamb s')
-    (hr : Reach p hh s0 s) : PendD s := by
+/-- **Along every execution each tracker's prepared list is, entry by entry, a permutation of what the waiting commands
+    prepared.** -/
+theorem pendD_reach (p : Prog) (hh : Hist) {s0 s : St} (h0 : PendD s0) (hr : Reach p hh s0 s) : PendD s := by
   induction hr with
   | refl => exact h0
-  | tick hr' ht ih => exact pendD_tick p hh ih (hU _ hr') ht
+  | tick _ ht ih => exact pendD_tick p hh ih ht
+
+/-- The system-level invariant, along every execution from the empty world. -/
+theorem pend_reach (p : Prog) (hh : Hist) {s : St} (hr : Reach p hh ({} : St) s) : Pend s :=
+  pend_of_pendD (pendD_reach p hh pendD_default hr)
 
 theorem claimedOwn_emit (s : St) (e : Ev) (k : Kind) : claimedOwn (s.emit e) k = claimedOwn s k := by cases k <;> rfl
 
 /-- **Exact claim**: when a command is about to take its callback, the `start` of every tracker it uses claims the
     entry this very command prepared. `s1` is any state with the trackers of `s` (the runner updates `storage` and the
     counter in between). -/
-theorem claim_exact {s : St} {sys idx : Nat} {k : Kind} {rest : List Frame} (h : PendD s) (hu : Unamb s)
+theorem claim_exact {s : St} {sys idx : Nat} {k : Kind} {rest : List Frame} (h : PendD s)
     (hs : s.stack = Frame.runnerLookup sys k idx :: rest) (s1 : St) (h1 : s1.trkSys = s.trkSys) (h2 : s1.trkEvt = s.trkEvt)
     (h3 : s1.trkEnt = s.trkEnt) (h4 : s1.trkDsp = s.trkDsp) : claimedOwn (setupK s1 k sys) k = true := by
   rw [claimedOwn_iff]
@@ -676,10 +618,7 @@ theorem claim_exact {s : St} {sys idx : Nat} {k : Kind} {rest : List Frame} (h :
     rw [prepD_of_trk h1 h2 h3 h4]
     have := h T
     simpa [allPending, hs, stackPending_cons, framePending] using this
-  have hn : (pend (uses T) (s.buffered ++ (sys, k) :: stackPending rest)).Nodup := by
-    have := hu T
-    simpa [allPending, hs, stackPending_cons, framePending] using this
-  exact ((pendD_setup T h0 hn).2 key hk).1
+  exact ((pendD_setup T h0).2 key hk).1
 
 /-- With an exact claim the prologue of the body reports no misclaim. -/
 theorem preBody_exact (s1 : St) (sys : Nat) (k : Kind) (h : claimedOwn (setupK s1 k sys) k = true) :
